@@ -15,12 +15,13 @@ def format02d (v : Int) : Ck Bytes := do
   let b ← digitChar (cmod v 10)
   pure [a, b]
 
-/-- `Parse02d(p)`; `strchr` also matches the terminating NUL (value 10) -/
+/-- `Parse02d(p)`; `strchr` also matches the terminating NUL (index 10), which the code rejects
+explicitly (`v < 10 && w < 10`) -/
 def parse02d (p : Bytes) : Int :=
   match digitIdx (peek p) with
   | some v =>
     match digitIdx (peek (p.drop 1)) with
-    | some w => v * 10 + w
+    | some w => if v < 10 ∧ w < 10 then v * 10 + w else -1
     | none => -1
   | none => -1
 
